@@ -110,6 +110,11 @@ class _SubclassedWrapperBase(ClassWrapper):
       # __init__ method.
       cls.__init__ = object.__init__
       cls._call_init = cls.__post_init__
+    elif not getattr(cls.__init__, 'is_sym_init', False):
+      # The class brings its own `__init__` (or that of a non-symbolic base):
+      # it must be invoked even if a symbolic base class had none (and thus
+      # replaced `_call_init` by `__post_init__`).
+      cls._call_init = _SubclassedWrapperBase._call_init
 
     # Determine if a wrapper is created from symbolizing a regular class
     # or subclassed from another wrapper class.
